@@ -89,6 +89,9 @@ class Tokens:
         whole = [d for d in ds if (d[1] == "term" and not d[2]["dest"]["proj"]) or (d[1] != "term" and not d[2]["place"]["proj"])]
         partial = [d for d in ds if d not in whole]
         if is_buffer_local(f, l) and (partial or self.mut_users(f, l)):
+            cat = self.append_only(f, l, at)
+            if cat is not None:
+                return ("CAT", None, tuple(cat))
             lay = self.full_layout(f, l, at)
             if lay:
                 return ("BUF", u8_static_len(ty["s"]), tuple(lay))
@@ -260,6 +263,33 @@ class Tokens:
                             for pos, w, tok, wb in self.layout_events(g, i + 1):
                                 out.append((pos, w, tok, b))
         return out
+
+    def append_only(self, f, root, at):
+        """If `root` is a byte vector created empty and filled only by extend_from_slice / push calls that are totally ordered
+        by dominance and all dominate the consumer `at`, the list of appended tokens in order; else None."""
+        ds = [d for d in f.defs_of(root) if not f.blocks[d[0]]["cleanup"]]
+        whole = [d for d in ds if (d[1] == "term" and not d[2]["dest"]["proj"]) or (d[1] != "term" and not d[2]["place"]["proj"])]
+        if len(whole) != 1 or whole[0][1] != "term" or last_seg(whole[0][2]) not in ("new", "default"):
+            return None
+        apps = []
+        for b, t, i in self.mut_users(f, root):
+            last = last_seg(t)
+            if last in ("extend_from_slice", "push") and i == 0 and len(t["args"]) == 2:
+                apps.append((b, t))
+            elif last in ("as_mut_slice", "deref_mut", "index_mut", "copy_from_slice", "clone_from_slice", "fill", "set_len", "truncate", "clear", "insert", "remove", "pop"):
+                return None
+            elif self.F.call_targets(f, t):
+                return None
+        if not apps or at is None:
+            return None
+        for b, t in apps:
+            if not f.dominates(b, at) or f.in_cycle(b) != f.in_cycle(at):
+                return None
+        apps.sort(key=lambda x: sum(1 for y in apps if f.dominates(y[0], x[0])))
+        for (b1, _), (b2, _) in zip(apps, apps[1:]):
+            if not f.dominates(b1, b2):
+                return None
+        return [self.token(f, t["args"][1], at=b) for b, t in apps]
 
     def full_layout(self, f, root, at=None, depth=0):
         """Layout of buffer `root` as seen by a consumer in block `at`: the writes of this function that can reach `at`
@@ -553,14 +583,25 @@ class Sessions:
                 continue
             rv = s["rv"]
             src = None
+            cap = None
             if rv["k"] in ("use", "cast"):
                 p = core.op_place(rv["op"])
                 src = p["local"] if p and not [e for e in p["proj"] if e["k"] != "deref"] else None
+                cap = p
             elif rv["k"] in ("ref", "rawptr"):
                 pl = rv["place"]
                 src = pl["local"] if not [e for e in pl["proj"] if e["k"] != "deref"] else None
+                cap = pl
             if src is not None and src in parent:
                 union(d, src)
+            elif cap is not None and cap["local"] == 1 and f.j.get("parent_fn") and any(e["k"] == "field" for e in cap["proj"]):
+                # a hasher captured by a closure: `(*_1).k` is one value for the whole closure body
+                k = [e for e in cap["proj"] if e["k"] == "field"][0].get("i", 0)
+                pseudo = -1000 - k
+                if pseudo not in parent:
+                    parent[pseudo] = pseudo
+                    hl.append(pseudo)
+                union(d, pseudo)
         for b, t in f.calls():
             if f.blocks[b]["cleanup"]:
                 continue
@@ -590,6 +631,8 @@ class Sessions:
         for l in hl:
             if 1 <= l <= f.arg_count:
                 init[find(l)] = (("START", "param:%s" % param_name(f, l)),)
+            elif l < 0:
+                init[find(l)] = (("START", "captured"),)
         stack = [(0, (), tuple(sorted(init.items())), frozenset())]
         n = 0
         while stack:
@@ -695,6 +738,8 @@ def render_token(tok):
         return "%s[%s]" % (render_token(tok[2][0]), tok[2][1])
     if k == "BUF":
         return "BUF%s{%s}" % (tok[1] or "", "; ".join("%s:%s" % (p, render_token(t)) for p, w, t in tok[2]))
+    if k == "CAT":
+        return "(%s)" % " ++ ".join(render_token(t) for t in tok[2])
     if k == "ARRLIT":
         return "[%s]" % ",".join(tok[2])
     if k == "FILL":
@@ -724,7 +769,11 @@ def byte_vec_fns(F):
     out = []
     for p, f in sorted(F.fns.items()):
         o = f.j.get("output", {}).get("s", "")
-        if o.startswith("tinyvec::arrayvec::ArrayVec<[u8;") and any(last_seg(t) in ("extend_from_slice", "push") for b, t in f.calls() if not f.blocks[b]["cleanup"]):
+        ins = f.j.get("inputs", [])
+        # a serialiser renders a value of a crate type: its first parameter is a reference to a local struct / enum
+        # (helpers that merely build some byte vector - hash outputs, scratch buffers - are not wire formats)
+        selfish = bool(ins) and ins[0].get("k") == "ref" and ins[0]["ty"].get("k") == "adt" and ins[0]["ty"].get("crate") == core.LOCAL_CRATE
+        if selfish and o.startswith("tinyvec::arrayvec::ArrayVec<[u8;") and any(last_seg(t) in ("extend_from_slice", "push") for b, t in f.calls() if not f.blocks[b]["cleanup"]):
             out.append(f)
     return out
 
